@@ -26,8 +26,10 @@ DOC = {
         "use the same attribute set."
     ),
     "rules": {
+        "C16-R2": "every loader (list, dict, data frame, file plugins) constructs Parameters through __init__, which ends with the expression refresh; the refresh is an exact fixed point bounded by the number of expression parameters, so expressions that reference other expression parameters - in any declaration order - hold their value after loading",
         "C16-R1": "per format: {(minimum,-inf),(maximum,+inf)} blanked by the writer == filled by the reader; na_rep in na_values; headers are lower-cased then renamed with OPTION_NAMES_DESERIALIZED, which is the inverse of the injective, lower-case OPTION_NAMES_SERIALIZED over Parameter attributes; tsv uses sep='\\t' in both directions through the csv plugin; list and dict loaders number unnamed parameters from 1 counting only non-dict entries; to_dataframe/as_dict exclude exactly the non-init attribute; NaN expressions become None",
     },
+    "rules_extra": {},
     "declined": ["dtype inference of pandas / openpyxl / odf", "float text precision", "labels that look like numbers in scientific notation (value level)"],
     "assumptions": ["pandas read_csv/read_excel na_values and DataFrame.fillna/replace semantics"],
 }
@@ -177,9 +179,19 @@ def r1(ctx) -> None:
         ctx.ob("C16-R1", f"{cls}/registered-formats", fmts <= got, None, ci.node, f"registered for {sorted(fmts)}", construct=f"@register_project_io({sorted(got)})")
 
 
+def r2(ctx) -> None:
+    """'Expressions are re-evaluated after loading': every loader builds the container through __init__, which refreshes
+    the expression parameters with an order-insensitive fixed point (obligations shared with C12-R1 / C12-R2)."""
+    from glint.rules.c12 import r1 as refresh
+    from glint.rules.c12 import r2 as fixed_point
+
+    refresh(ctx, rule="C16-R2")
+    fixed_point(ctx, rule="C16-R2")
+
+
 def check(ctx) -> None:
     for g in check.groups:
         g(ctx)
 
 
-check.groups = [r1]
+check.groups = [r1, r2]
